@@ -280,6 +280,7 @@ def build(x=False):
     U.extract(S.GR, 'impl MatchTypePattern', fns={
         'try_from_type_str': A(stub=True, ret='r', ensures=[('def', 'r == type_pattern_of(s@)')]),
     }, others='stub')
+    S.grammar_ambient(U)
     U.extract('rscel/src/program/program_details.rs', 'impl ProgramDetails', fns=S.stubbed(S.DETAILS))
     U.extract(S.PR, 'impl From<ByteCode> for PreResolvedCodePoint', fns={'from': A(ret='r', ensures=[('def', 'r == PreResolvedCodePoint::Bytecode(value)')], props=('C10', 'C01'))})
     U.extract(S.PR, 'impl PreResolvedByteCode', fns={
@@ -302,6 +303,6 @@ def build(x=False):
         'parse_conditional_or': A(stub=True, ret='r', requires=[CURSOR], ensures=[UNTOUCHED, result_clause(f'sp_or({HERE})', ())]),
         'parse_expression': A(stub=True, ret='r', requires=[CURSOR], ensures=[UNTOUCHED, result_clause(f'sp_expr({HERE})', ())]),
         **({'parse_match_pattern': pattern_stub_for_x(), 'parse_match_expression': match_contract()} if x else {'parse_match_pattern': pattern_contract()}),
-    })
+    }, others='stub', skip=('with_tokenizer', 'compile'))
     U.raw(C.FOOTER, 'footer')
     return U
